@@ -1,5 +1,6 @@
 //! Correspondence harness: interprets the line protocols of /verif/lean (Model/*Script.lean)
 //! against the real sodium-rust library, in-process, and prints one observation per line.
+mod api;
 mod gc;
 mod node;
 
@@ -25,6 +26,7 @@ fn mode_dispatch(args: &[String]) -> Result<(), String> {
         Some("gc") => gc::run_stdin(),
         Some("gc-enum") => gc::enumerate(&args[2..]),
         Some("node") => node::run_stdin(),
+        Some("api") => api::run_stdin(),
         _ => Err("usage: harness gc|gc-enum ...".into()),
     }
 }
